@@ -503,31 +503,7 @@ impl Task {
     }
 //@end
 }
-// ---- src/workingset.rs and src/task/status.rs read accessors (C18) -------------------------------------------------
-//@extract src/workingset.rs :: struct WorkingSet
-pub struct WorkingSet {
-    pub by_index: Vec<Option<Uuid>>,
-    pub by_uuid: HashMap<Uuid, usize>,
-}
-//@end
-impl WorkingSet {
-//@extract src/workingset.rs :: impl WorkingSet :: fn largest_index
-    pub fn largest_index(&self) -> (r: usize)
-{
-        self.by_index.len().saturating_sub(1)
-    }
-//@end
-//@extract src/workingset.rs :: impl WorkingSet :: fn by_index
-    pub fn by_index(&self, index: usize) -> (r: Option<Uuid>)
-{
-        if let Some(Some(uuid)) = self.by_index.get(index) {
-            Some(*uuid)
-        } else {
-            None
-        }
-    }
-//@end
-}
+// ---- src/task/status.rs read accessors (C18) -------------------------------------------------
 impl Status {
 //@extract src/task/status.rs :: impl Status :: fn from_taskmap
     pub fn from_taskmap(s: &str) -> (r: Status)
